@@ -51,6 +51,27 @@ func plan(tier string, seed int64) []driver.Case {
 		}
 		if e.Op != nil || e.IntObs != nil {
 			cases = append(cases, driver.Case{ID: fmt.Sprintf("op/%s/ctx", e.Name), P: map[string]string{"kind": "op", "entry": e.Name, "cut": "ctx"}})
+			// "head" sources: never-ending sources that emit one value synchronously while they are
+			// being subscribed (a cached value followed by live updates) - the downstream side can
+			// terminate before the operator has even got the subscription it must release
+			for _, cut := range []string{"take1", "take2", "first", "maperr1", "tap-panic"} {
+				cases = append(cases, driver.Case{ID: fmt.Sprintf("op/%s/%s/head", e.Name, cut), P: map[string]string{"kind": "op", "entry": e.Name, "cut": cut, "head": "1"}})
+			}
+		}
+	}
+	// higher-order operators fed by an asynchronous outer source whose inner observables are
+	// never-ending, with and without a value emitted while the inner one is being subscribed
+	for _, name := range hoNames {
+		for _, cut := range []string{"take1", "take2", "first", "maperr1", "tap-panic", "unsub1"} {
+			for _, head := range []string{"", "inner"} {
+				for _, oc := range []string{"", "2"} {
+					if hoNeedsOuterComplete[name] && oc == "" {
+						continue
+					}
+					cases = append(cases, driver.Case{ID: fmt.Sprintf("ho/%s/%s/head=%s/outer-complete=%s", name, cut, head, oc),
+						P: map[string]string{"kind": "ho", "entry": name, "cut": cut, "head": head, "ocomplete": oc}})
+				}
+			}
 		}
 	}
 	ch := catalog.Chainable()
@@ -70,7 +91,11 @@ func plan(tier string, seed int64) []driver.Case {
 		if blocks && strings.HasPrefix(cut, "unsub") {
 			cut = "take1"
 		}
-		cases = append(cases, driver.Case{ID: fmt.Sprintf("chain/%d/%s/%s", i, strings.Join(names, ">"), cut), P: map[string]string{"kind": "op", "chain": strings.Join(names, ">"), "cut": cut}})
+		head := ""
+		if i%3 == 2 && !strings.HasPrefix(cut, "unsub") && cut != "takeuntil" {
+			head = "1"
+		}
+		cases = append(cases, driver.Case{ID: fmt.Sprintf("chain/%d/%s/%s%s", i, strings.Join(names, ">"), cut, map[string]string{"": "", "1": "/head"}[head]), P: map[string]string{"kind": "op", "chain": strings.Join(names, ">"), "cut": cut, "head": head}})
 	}
 	return cases
 }
@@ -111,6 +136,64 @@ func downstream(cut string, signal ro.Observable[int]) (func(ro.Observable[int])
 	return func(o ro.Observable[int]) ro.Observable[int] { return o }, 0
 }
 
+// ---------------------------------------------------------------- higher-order operators
+
+var hoNames = []string{"MergeAll", "MergeMap", "MergeMapWithContext", "MergeMapI", "MergeMapIWithContext", "ConcatAll", "FlatMap", "FlatMapWithContext", "FlatMapI", "FlatMapIWithContext", "CombineLatestAll", "ZipAll"}
+
+// these subscribe their inner observables only once the outer one has completed
+var hoNeedsOuterComplete = map[string]bool{"CombineLatestAll": true, "ZipAll": true}
+
+// hoEntry builds, for the generic driver of this check, a pipeline whose source 0 is the outer
+// observable (its values pick the inner observable) and whose sources 1..2 are the inner ones.
+func hoEntry(name string) *catalog.Entry {
+	const k = 2
+	e := &catalog.Entry{Name: "ho/" + name, Family: name, NSrc: 1 + k}
+	pick := func(b *catalog.B) func(int) ro.Observable[int] {
+		return func(i int) ro.Observable[int] {
+			if i < 0 {
+				i = -i
+			}
+			return b.S(1 + i%k)
+		}
+	}
+	size := ro.Map(func(v []int) int { return len(v) })
+	switch name {
+	case "ConcatAll", "FlatMap", "FlatMapWithContext", "FlatMapI", "FlatMapIWithContext":
+		e.Flags |= catalog.Blocks
+	}
+	e.IntObs = func(b *catalog.B) ro.Observable[int] {
+		outer, f := b.S(0), pick(b)
+		switch name {
+		case "MergeAll":
+			return ro.MergeAll[int]()(ro.Map(f)(outer))
+		case "ConcatAll":
+			return ro.ConcatAll[int]()(ro.Map(f)(outer))
+		case "CombineLatestAll":
+			return size(ro.CombineLatestAll[int]()(ro.Map(f)(outer)))
+		case "ZipAll":
+			return size(ro.ZipAll[int]()(ro.Map(f)(outer)))
+		case "MergeMap":
+			return ro.MergeMap(f)(outer)
+		case "MergeMapWithContext":
+			return ro.MergeMapWithContext(func(_ context.Context, i int) ro.Observable[int] { return f(i) })(outer)
+		case "MergeMapI":
+			return ro.MergeMapI(func(i int, _ int64) ro.Observable[int] { return f(i) })(outer)
+		case "MergeMapIWithContext":
+			return ro.MergeMapIWithContext(func(ctx context.Context, i int, _ int64) (context.Context, ro.Observable[int]) { return ctx, f(i) })(outer)
+		case "FlatMap":
+			return ro.FlatMap(f)(outer)
+		case "FlatMapWithContext":
+			return ro.FlatMapWithContext(func(_ context.Context, i int) ro.Observable[int] { return f(i) })(outer)
+		case "FlatMapI":
+			return ro.FlatMapI(func(i int, _ int64) ro.Observable[int] { return f(i) })(outer)
+		case "FlatMapIWithContext":
+			return ro.FlatMapIWithContext(func(_ context.Context, i int, _ int64) ro.Observable[int] { return f(i) })(outer)
+		}
+		panic("c14: unknown higher-order operator " + name)
+	}
+	return e
+}
+
 func runOp(c driver.Case) driver.Result {
 	var e *catalog.Entry
 	var chain []*catalog.Entry
@@ -128,7 +211,11 @@ func runOp(c driver.Case) driver.Result {
 			}
 		}
 	} else {
-		e = catalog.Get(c.Get("entry"))
+		if c.Get("kind") == "ho" {
+			e = hoEntry(c.Get("entry"))
+		} else {
+			e = catalog.Get(c.Get("entry"))
+		}
 		name, fam = e.Name, e.Family
 		if e.Flags.Has(catalog.Blocks) {
 			fam = canonBlocking(e.Family)
@@ -144,6 +231,9 @@ func runOp(c driver.Case) driver.Result {
 	var srcs []*src.Source
 	for i := 0; i < e.NSrc; i++ {
 		s := src.New(fmt.Sprintf("s%d", i)) // never-ending: emits only when the harness says so
+		if c.Get("head") == "1" || (c.Get("head") == "inner" && i > 0) {
+			s.Scripts = []src.Script{{src.Notif{K: rec.Next, V: 1}}} // plus one value during Subscribe
+		}
 		srcs = append(srcs, s)
 		b.Srcs = append(b.Srcs, s.Observable())
 	}
@@ -195,8 +285,25 @@ func runOp(c driver.Case) driver.Result {
 		res.Dirty = true
 		return res
 	}
+	// A higher-order operator that waits for its inner observable inside Next keeps the outer
+	// producer's call open as long as the inner one runs - legitimately. The driver must not sit in
+	// that call itself (it could never feed the inner source): the outer value is sent from a
+	// goroutine of its own, and that the call returns is checked once the downstream side is over.
+	asyncOuter := c.Get("kind") == "ho" && e.Flags.Has(catalog.Blocks)
+	var pending []chan struct{}
 	emit := func(s *src.Source, n src.Notif) bool {
 		if !s.IsSubscribed() || s.Live.Load() == 0 {
+			return true
+		}
+		if asyncOuter && s == srcs[0] {
+			done := make(chan struct{})
+			pending = append(pending, done)
+			go func() {
+				defer close(done)
+				defer func() { recover() }()
+				s.Send(n)
+			}()
+			quiesce.Settle(300 * time.Millisecond)
 			return true
 		}
 		st, dump, _ := quiesce.Call(func() { defer func() { recover() }(); s.Send(n) }, 10*time.Second)
@@ -251,6 +358,11 @@ func runOp(c driver.Case) driver.Result {
 		}
 	default:
 		for round := 0; round < 8 && !closed(); round++ {
+			if oc := c.Get("ocomplete"); oc != "" && fmt.Sprint(round) == oc {
+				if !emit(srcs[0], src.Notif{K: rec.Complete}) {
+					return res
+				}
+			}
 			for _, s := range srcs {
 				if closed() {
 					break
@@ -317,6 +429,13 @@ func runOp(c driver.Case) driver.Result {
 				return fail("upstream-not-released-and-still-running", fmt.Sprintf("the downstream side terminated (trace [%s]) but source %s is still subscribed and goroutines keep running (%s)", r.TraceString(), s.Name, s.Summary()), dump)
 			}
 			return fail("upstream-not-released", fmt.Sprintf("the downstream side terminated (trace [%s]) but source %s is still subscribed: %s; Subscribe returned: %v", r.TraceString(), s.Name, s.Summary(), returned()), dump)
+		}
+	}
+	for _, done := range pending {
+		done := done
+		st, dump, _ := quiesce.Call(func() { <-done }, 10*time.Second)
+		if st == quiesce.Hung {
+			return fail("producer-call-never-returns/"+quiesce.BlockedSite(dump), "every source is released but the outer producer's Next call, which was waiting for an inner observable, never returns; all goroutines blocked", dump)
 		}
 	}
 	// 2. the Subscribe call that was running inside the pipeline has returned
